@@ -234,6 +234,33 @@ func checkC02(e *core.Env) {
 	})
 
 	// responses that cannot be decoded by the client / encoded by the server
+	// the caller's context ends after the single response has arrived and before the status has: the call is
+	// cancelled or it reports what the handler returned, never success for a handler that failed
+	e.Cases("cancel-after-response", e.N(40, 400), func(i int, r *rand.Rand) {
+		var c *Carrier
+		for _, x := range cs.list {
+			if (i%2 == 0) == x.Inproc && (x.Inproc || x.Name == "http-server") {
+				c = x
+			}
+		}
+		if c == nil {
+			return
+		}
+		sc := genCancelScript(r, ClientStream, c.HTTP, "ignore", 1<<20)
+		sc.Ret = Ret{How: "status", Code: uint32(codes.DataLoss), Msg: "failed after responding"}
+		res := runPlaced(c, sc, pick(r, "cancel", "deadline"), placement{"gate", 0})
+		if !res.finished || !res.reached {
+			e.Inconclusive("C02 cancel-after-response: placement not reached on %s", c.Name)
+			return
+		}
+		out := res.run.ClientOutcome()
+		herr, ran := res.run.HandlerReturn()
+		e.Eval(fmt.Sprintf("cancel-after-response|%s|ok=%v", c.Name, out.OK), true)
+		if ran && herr != nil && out.Seen && out.OK {
+			e.Violate(c.Name+"/stream/success-despite-error/context-ended-before-status", fmt.Sprintf("the handler sent its response and then failed with %v; the caller's context ended while the status was outstanding and the client reported success", herr), witness(res.run))
+		}
+	})
+
 	e.Cases("codec", e.N(40, 200), func(i int, r *rand.Rand) {
 		kind := Kind(i % 4)
 		for _, c := range cs.list {
